@@ -93,6 +93,10 @@ type c17LimCase struct {
 	// BadHash (receipt path, field limits only): the content hash does not match, so the parser keeps
 	// the event in redacted form - the limited fields survive redaction and the limits still apply
 	BadHash bool `json:"bad_hash,omitempty"`
+	// AsCreate (receipt path, domainless versions, room_id field): the event carrying the room_id is the
+	// m.room.create event itself, whose room ID the version derives from the event ID — the limit is on
+	// the member the event carries all the same
+	AsCreate bool `json:"as_create,omitempty"`
 }
 
 // c17Wire re-spells a canonical event without changing its value (beyond the keys stripped on receipt).
@@ -245,6 +249,15 @@ func c17CheckLimits(ctx *vfCtx, c c17LimCase) {
 	for _, f := range c.Fields {
 		e.set(f)
 		touched[f.Name] = true
+	}
+	if c.AsCreate {
+		if !tr.Privileged || c.Path != "receipt" || len(touched) != 1 || !touched["room_id"] {
+			ctx.Unjudged("as_create outside its domain")
+			return
+		}
+		empty := ""
+		e.Type, e.StateKey = "m.room.create", &empty
+		ctx.Class("room_id-carried-by-the-create-event")
 	}
 	measure := func(name, v string) {
 		if utf8.RuneCountInString(v) > 255 {
@@ -534,6 +547,9 @@ func c17EnumLimits(size, shard, nshards int, emit func(c17LimCase)) {
 							out(c17LimCase{Version: ver, Path: path, Fields: []c17Field{{name, unit, width, n}}})
 							if path == "receipt" {
 								out(c17LimCase{Version: ver, Path: path, Fields: []c17Field{{name, unit, width, n}}, BadHash: true})
+								if name == "room_id" && c17Table[ver].Privileged {
+									out(c17LimCase{Version: ver, Path: path, Fields: []c17Field{{name, unit, width, n}}, AsCreate: true})
+								}
 							}
 						}
 					}
